@@ -16,7 +16,7 @@ LEVEL_TEXT = ('Lean 4 theorems, for all shapes, masks, amplitudes and OPDs — t
               'add up to the phasor of the global mask, also with overlapping bounding boxes; a plane multiplies the summed embedding by its '
               'transmission, so chains of planes give the same total field for both descriptions; propagate_dft is additive in the embedded '
               'field; intensity is the squared modulus of the coherent sum; composed end to end (segmented_eq_monolithic_end_to_end): '
-              'a fresh wavefront through any non-empty chain of array-masked partitioned planes, then propagate_dft as the driver models it (generated window block and shapes, a tilt shift common to all fields, optional output mask: segmented_eq_monolithic_propagateDft) -> equal Wavefront.field and intensity at every sample; well-formedness follows from the masks alone for constructed planes (splitPlane_wf_of_masks); Tilt planes anywhere in the chain and Wavefront(tilt=) as ONE theorem (segmented_eq_monolithic_interleaved: every field carries each Tilt once, data unchanged); through propagate_fft by composition with C09 (segmented_eq_monolithic_propagate_fft and …_intensity: under the hypotheses that propagate_fft answers FftOut.ok for both descriptions with the same reported wavelength, grid and output shape; no sampled class in this harness); a masked plane after the propagation keeps the equality (plane_after_propagation); segments with their own fitted tilts sum to the monolithic propagation on the common window (fitted_tilts_eq_monolithic, with C04); chain_exp: the explicit product of amplitude*exp(2 pi i opd/lambda) over the planes. The NumPy plumbing is a hand model checked against the '
+              'a fresh wavefront through any non-empty chain of array-masked partitioned planes, then propagate_dft as the driver models it (generated window block and shapes, a tilt shift common to all fields, optional output mask: segmented_eq_monolithic_propagateDft) -> equal Wavefront.field and intensity at every sample; non-vacuity examples instantiate the whole end-to-end and interleaved theorems on a two-plane chain; well-formedness follows from the masks alone for constructed planes (splitPlane_wf_of_masks); Tilt planes anywhere in the chain and Wavefront(tilt=) as ONE theorem (segmented_eq_monolithic_interleaved: every field carries each Tilt once, data unchanged); through propagate_fft by composition with C09 (segmented_eq_monolithic_propagate_fft and …_intensity: under the hypotheses that propagate_fft answers FftOut.ok for both descriptions with the same reported wavelength, grid and output shape; no sampled class in this harness); a masked plane after the propagation keeps the equality (plane_after_propagation); segments with their own fitted tilts sum to the monolithic propagation on the common window (fitted_tilts_eq_monolithic, with C04); chain_exp: the explicit product of amplitude*exp(2 pi i opd/lambda) over the planes. The NumPy plumbing is a hand model checked against the '
               'implementation, with both descriptions run on the real code.')
 LEVEL_NOTE = ('Partial: segments / intermediate fields with exactly one element are excluded by hypothesis (open known finding '
               'KF-C03-one-pixel-segment — not repaired because C06 as given makes a (1,1) array a broadcastable constant, so the two properties conflict on that input; the hypothesis ExtOK is evaluated by the model (c03.extok, extOKb_iff) on every case of the classes the ExtOK theorems cover: segmented-vs-monolithic chains in both number systems and the mixed Tilt/segmented chains; not for the fitted-tilt, re-use and big-aperture classes); the theorems '
